@@ -187,35 +187,66 @@ def layer_application(run, f, direction, rule='R11.apply'):
 
 
 def gate_compile(run, f, rule='R11.compile'):
+    """CliffordGate.compile decided by executing it in the eight configurations (generator / forward map / backward map given
+    or not): a generator gate gets clifford_rotation_map(+generator) and clifford_rotation_map(-generator) (whatever maps it had
+    before: compile must follow the current generator); otherwise a missing map becomes the inverse of the other one, a given
+    map is kept, and only a gate with nothing at all is refused."""
+    import itertools
+    from .. import mini
+    from ..exprnf import Undecidable
     n = 0
-    for p, end, conds in live_paths(f):
-        desc = ' and '.join(('' if pol else 'not ') + norm(t) for t, pol in conds)[:150]
-        stores = {}
-        for s in p:
-            if isinstance(s, ast.Assign) and isinstance(s.targets[0], ast.Attribute) and norm(s.targets[0].value) == 'self':
-                stores[s.targets[0].attr] = (norm(s.value).replace(' ', ''), s)
-        gen, _ = guards.entails(conds, [('self.generator is not None', True)])
+    for has_gen, has_f, has_b in itertools.product((True, False), repeat=3):
+        heap = {'generator': _Sym('G') if has_gen else None, 'forward_map': _Sym('F') if has_f else None,
+                'backward_map': _Sym('B') if has_b else None, 'n': 2, 'qubits': _Sym('Q'), 'device': _Sym('dev')}
+        init = dict(heap)
+        raised = [False]
+
+        def attr(nd, env, rec, heap=heap):
+            if norm(nd.value) == 'self' and nd.attr in heap:
+                return heap[nd.attr]
+            raise Undecidable('attribute ' + norm(nd))
+
+        def call(nd, env, rec):
+            fn = nd.func
+            if isinstance(fn, ast.Attribute) and fn.attr == 'inverse' and not nd.args:
+                return _Sym('inv', rec(fn.value))
+            if isinstance(fn, ast.Attribute) and fn.attr in ('copy', 'clone') and not nd.args:
+                return _Sym('copy', rec(fn.value))
+            if isinstance(fn, ast.Name) and fn.id == 'clifford_rotation_map' and nd.args:
+                return _Sym('rotmap', rec(nd.args[0]))
+            if isinstance(fn, ast.Name) and fn.id in ('Exception', 'ValueError', 'RuntimeError', 'NotImplementedError'):
+                return _Sym('exc')
+            raise Undecidable('call ' + norm(fn))
+
+        def on_store(t, v, env, value, heap=heap):
+            if isinstance(t, ast.Attribute) and norm(t.value) == 'self':
+                if v is Undecidable:
+                    raise Undecidable('value stored into self.' + t.attr)
+                heap[t.attr] = v
+        desc = 'generator %s, forward map %s, backward map %s' % tuple('given' if x else 'None' for x in (has_gen, has_f, has_b))
+        try:
+            tr = mini.execute(f.node, {}, attr=attr, call=call, on_store=on_store)
+        except Undecidable as e:
+            run.undecided(rule, f, desc, 'compile could not be interpreted in this configuration: %s' % e)
+            continue
+        raised = bool(tr) and isinstance(tr[-1][0], ast.Raise)
         n += 1
-        if gen:
-            fw = stores.get('forward_map', ('', None))[0]
-            bw = stores.get('backward_map', ('', None))[0]
-            run.check(fw == 'clifford_rotation_map(self.generator)', rule, f, 'forward_map [%s]' % desc,
-                      'compiled forward map of a generator gate must be clifford_rotation_map(self.generator), found %s' % fw)
-            run.check(bw == 'clifford_rotation_map(-self.generator)', rule, f, 'backward_map [%s]' % desc,
-                      'compiled backward map of a generator gate must be clifford_rotation_map(-self.generator), found %s' % bw)
+        if has_gen:
+            run.check(not raised and heap['forward_map'] == _Sym('rotmap', _Sym('G')), rule, f, 'forward_map [%s]' % desc,
+                      'compiled forward map of a generator gate must be clifford_rotation_map(self.generator), found %r' % (heap['forward_map'],))
+            run.check(not raised and heap['backward_map'] == _Sym('rotmap', _Sym('neg', _Sym('G'))), rule, f, 'backward_map [%s]' % desc,
+                      'compiled backward map of a generator gate must be clifford_rotation_map(-self.generator), found %r' % (heap['backward_map'],))
             continue
-        if end == 'raise':
-            both, _ = guards.entails(conds, [('self.forward_map is None', True), ('self.backward_map is None', True)])
-            run.check(both, rule, f, 'raise [%s]' % desc, 'compile may only refuse a gate with neither generator nor maps')
+        if not has_f and not has_b:
+            run.check(raised, rule, f, 'raise [%s]' % desc, 'a gate with neither generator nor maps cannot be compiled: compile must refuse it')
             continue
-        for own, other in (('forward_map', 'backward_map'), ('backward_map', 'forward_map')):
-            own_none, _ = guards.entails(conds, [('self.%s is None' % own, True)])
-            if own_none:
-                got = stores.get(own, ('', None))[0]
-                run.check(got == 'self.%s.inverse()' % other, rule, f, '%s [%s]' % (own, desc),
-                          'a missing %s must be compiled as self.%s.inverse(), found %s' % (own, other, got or 'nothing'))
-            elif own in stores:
-                run.violation(rule, f, stores[own][1], 'compile overwrites a given %s' % own)
+        run.check(not raised, rule, f, 'raise [%s]' % desc, 'compile may only refuse a gate with neither generator nor maps')
+        for own, other, has_own in (('forward_map', 'backward_map', has_f), ('backward_map', 'forward_map', has_b)):
+            if has_own:
+                run.check(heap[own] == init[own], rule, f, '%s [%s]' % (own, desc), 'compile overwrites a given %s (with %r)' % (own, heap[own]))
+            else:
+                run.check(heap[own] == _Sym('inv', init[other]), rule, f, '%s [%s]' % (own, desc),
+                          'a missing %s must be compiled as self.%s.inverse(), found %r' % (own, other, heap[own]))
     return n
 
 
